@@ -1494,6 +1494,49 @@ class Summaries:
             bump(ctx, path, c, known=None, length=None)
             return UNIT
 
+        @regx(r'^std::collections::(HashMap|HashSet)::<.*>::retain$|^std::vec::Vec::<T, A>::retain$')
+        def _(ctx):
+            path, c = coll_at(ctx, ctx.args[0])
+            f = ctx.args[1]
+            st = ctx.st
+            # the predicate is analysed on an arbitrary element (scratch state); what it keeps is
+            # recorded for the pruning rules: the kept elements satisfy the predicate
+            desc = None
+            s2 = st.fork()
+            if c.kind == 'map':
+                head, args = split_generic(c.ty)
+                k = eng.mk_default(s2, args[0] if args else '?', name='retain.key')
+                vref = RefV((path[0], path[1] + (('e', k),)), True) if path is not None else eng.mk_default(s2, '?')
+                res = eng.call_value(s2, f, [mkref(s2, k), vref], ctx.depth, ctx.fr, ctx.bi)
+                desc = retain_bound(res, k)
+            else:
+                e = eng.mk_default(s2, elem_type(c.ty, c.kind), name='retain.elem')
+                res = eng.call_value(s2, f, [mkref(s2, e)], ctx.depth, ctx.fr, ctx.bi)
+                desc = retain_bound(res, e)
+            log(ctx, 'coll.retain', spath(path), desc)
+            bump(ctx, path, c, known=None, length=None)
+            return UNIT
+
+        def retain_bound(res, k):
+            """if the predicate is `key < bound` (for every path), return ('lt', bound)"""
+            if not isinstance(k, NumV):
+                return None
+            bound = None
+            for (s3, r) in res:
+                if not isinstance(r, BoolV):
+                    return None
+                a = r.atom
+                if r.val is None and a and a[0] == 'cmp' and a[1] == 'lt' and isinstance(a[2], NumV) and a[2].key() == k.key():
+                    b = ('lt', a[3])
+                elif r.val is None and a and a[0] == 'cmp' and a[1] == 'le' and isinstance(a[2], NumV) and a[2].key() == k.key():
+                    b = ('le', a[3])
+                else:
+                    return None
+                if bound is not None and (bound[0] != b[0] or bound[1].key() != b[1].key()):
+                    return None
+                bound = b
+            return bound
+
         @reg('std::collections::HashSet::<T, S, A>::insert')
         def _(ctx):
             r, v = ctx.args
